@@ -1054,7 +1054,9 @@ class TT():
             if squared:
                 return norm
             else:
-                return tn.sqrt(tn.abs(norm))
+                # zero tensor: value 0 and gradient 0 (as for torch.linalg.norm of a zero array), not sqrt'(0)*0 = nan
+                norm = tn.abs(norm)
+                return tn.sqrt(tn.where(norm > 0, norm, tn.ones_like(norm)))*(norm > 0)
 
         else:
             d = len(self.cores)
